@@ -627,7 +627,7 @@ class Machine:
         if t == "mcall":
             return self.mcall(e, env)
         if t == "lambda":
-            return Closure(e[1], env, self.this)
+            return Closure(e[1], self.init_captures(e[1], env), self.this)
         if t == "init":
             return Vec([self.copyval(self.ev(x, env)) for x in e[1]], "initializer list")
         if t == "ctor":
@@ -688,6 +688,39 @@ class Machine:
             else:
                 acc = self.arith(op, acc, v)
         return acc
+
+    def init_captures(self, node, env):
+        """[name = expr, ...]: the initialisers are evaluated once, where the lambda expression is evaluated, and bound in the closure's own scope"""
+        txt = A.text(node) or ""
+        m = re.match(r"^\s*\[(.*?)\]\s*(?:<|\(|\{|mutable|->|noexcept|constexpr)", txt, re.S)
+        if not m or "=" not in m.group(1).replace("==", ""):
+            return env
+        items, depth, cur = [], 0, ""
+        for ch in m.group(1):
+            if ch in "([{<":
+                depth += 1
+            elif ch in ")]}>":
+                depth -= 1
+            if ch == "," and depth == 0:
+                items.append(cur)
+                cur = ""
+            else:
+                cur += ch
+        items.append(cur)
+        names = []
+        for it in items:
+            mm = re.match(r"^\s*&?\s*(\w+)\s*=[^=]", it + " ")
+            if mm:
+                names.append(mm.group(1))
+        if not names:
+            return env
+        inits = [c for c in A.kids(node) if c.get("kind") not in ("CXXRecordDecl", "CompoundStmt") and not (c.get("kind") or "").endswith(("Type", "TypeLoc", "Attr"))]
+        if len(inits) != len(names):
+            raise Unab("lambda init-captures %s with %d initialisers" % (names, len(inits)))
+        env2 = Env(env)
+        for nm, ini in zip(names, inits):
+            env2.bind(nm, Cell(self.copyval(self.rv(self.ev(TE(ini), env)))))
+        return env2
 
     def args_values(self, args, env):
         """argument values of a call, expanding `expr...`"""
@@ -1310,6 +1343,15 @@ class Machine:
             r = self.type_factory(self, tyn, args, env)
             if r is not NotImplemented:
                 return r
+        if re.match(r"^(const)?std::span<", tyn) and len(args) == 2:
+            # std::span<T, N>(pointer, count): a window onto a contiguous container (read through; the window is materialised)
+            vals = [self.eval(a, env) for a in args]
+            if isinstance(vals[0], It) and is_num(vals[1]):
+                n = int(simp(vals[1]))
+                if vals[0].i < 0 or vals[0].i + n > len(vals[0].v.items):
+                    raise AbstractViolation("std::span of %d elements at position %d of %s (size %d)" % (n, vals[0].i, vals[0].v.name, len(vals[0].v.items)))
+                return Vec(vals[0].v.items[vals[0].i:vals[0].i + n], vals[0].v.name + "[span]")
+            raise Unab("std::span constructor form")
         if re.match(r"^(const)?(std::)?(vector|array)<", tyn) or tyn.startswith("std::vector") or "vector<" in tyn.split("(")[0][:40]:
             vals = [self.eval(a, env) for a in args]
             if len(vals) == 0:
@@ -1515,7 +1557,7 @@ class Machine:
             self.run(ks[0], env)
         elif k in ("BinaryOperator", "CompoundAssignOperator", "CXXOperatorCallExpr", "UnaryOperator", "CallExpr", "CXXMemberCallExpr",
                    "ConditionalOperator", "CXXConstructExpr", "CXXFunctionalCastExpr", "CStyleCastExpr", "CXXStaticCastExpr", "LambdaExpr", "DeclRefExpr",
-                   "CXXUnresolvedConstructExpr", "CXXDependentScopeMemberExpr", "MemberExpr"):
+                   "CXXUnresolvedConstructExpr", "CXXDependentScopeMemberExpr", "MemberExpr", "CXXFoldExpr", "ParenExpr", "ExprWithCleanups"):
             e = TE(s)
             if e[0] == "call" and isinstance(e[1], str) and re.sub(r"<.*$", "", e[1]).split("::")[-1] in ("assert", "__assert_fail", "static_assert"):
                 return
@@ -1796,6 +1838,34 @@ def _transform(M, r, f):
     raise Unab("transform of %s" % show_val(r))
 
 
+def _transform_any(M, *a):
+    """std::views::transform(f) (adaptor), std::views::transform(r, f), std::transform(first, last, out, f) / std::ranges::transform(r, out, f)"""
+    if len(a) == 1:
+        f = a[0]
+        return RangeAdaptor("transform", lambda M_, r: _transform(M_, r, f))
+    if len(a) == 2:
+        return _transform(M, a[0], a[1])
+    if len(a) == 4 and all(isinstance(x, It) for x in a[:3]):
+        first, last, out, f = a
+        if first.v is not last.v:
+            raise Unab("std::transform over iterators of different containers")
+        res = [M.copyval(M.apply(f, [ItemRef(first.v.items, i)], None, None)) for i in range(first.i, last.i)]
+        if out.i + len(res) > len(out.v.items):
+            raise AbstractViolation("std::transform writes %d elements at position %d of %s (size %d)" % (len(res), out.i, out.v.name, len(out.v.items)))
+        for k, r in enumerate(res):
+            out.v.items[out.i + k] = r
+        return It(out.v, out.i + len(res))
+    if len(a) == 3 and isinstance(a[0], Vec) and isinstance(a[1], It):
+        r, out, f = a
+        res = [M.copyval(M.apply(f, [ItemRef(r.items, i)], None, None)) for i in range(len(r.items))]
+        if out.i + len(res) > len(out.v.items):
+            raise AbstractViolation("std::ranges::transform writes past the end of %s" % out.v.name)
+        for k, x in enumerate(res):
+            out.v.items[out.i + k] = x
+        return It(out.v, out.i + len(res))
+    raise Unab("transform with %d arguments" % len(a))
+
+
 def _make_pair(M, *a):
     return Tup([Cell(M.copyval(x)) for x in a])
 
@@ -1865,7 +1935,7 @@ BUILTINS = {
     "cbegin": _pure(lambda M, v: v.m_begin(M, [], None)), "cend": _pure(lambda M, v: v.m_end(M, [], None)),
     "name:reverse": PyFunc(lambda M, n, env, name=None: RangeAdaptor("reverse", _reverse), lazy=True),
     "take": _pure(lambda M, n: RangeAdaptor("take", lambda M_, r: _take(M_, r, n))),
-    "transform": _pure(lambda M, f: RangeAdaptor("transform", lambda M_, r: _transform(M_, r, f))),
+    "transform": _pure(lambda M, *a: _transform_any(M, *a)),
     "drop": _pure(lambda M, n: RangeAdaptor("drop", lambda M_, r: _drop(M_, r, n))),
 }
 
